@@ -51,7 +51,7 @@ Section SP.
 
   (* the HMC proposal: end point of the trajectory started with a fresh momentum *)
   Definition hmc_traj (c : @hmc_cfg N) (s : @st N) (e : @ev N) :=
-    propagate kgrad grad corr (h_integ c) (h_steps c) (step s) (e_factor e) (cur s) (genmom (e_z e)) (CGenMom :: trace s).
+    propagate (ListVec N) kgrad grad corr (h_integ c) (h_steps c) (step s) (e_factor e) (cur s) (genmom (e_z e)) (CGenMom :: trace s).
   Definition hmc_pq (c : @hmc_cfg N) (s : @st N) (e : @ev N) := fst (fst (hmc_traj c s e)).
   Definition hmc_pp (c : @hmc_cfg N) (s : @st N) (e : @ev N) := snd (fst (hmc_traj c s e)).
   Definition hmc_Ecur (c : @hmc_cfg N) (s : @st N) (e : @ev N) := add (misfit (cur s)) (kin (genmom (e_z e))).
@@ -61,7 +61,7 @@ Section SP.
     snd (hmc_step c i s e) = accepts (expf (sub (hmc_Ecur c s e) (hmc_Eprop c s e))) (e_u e).
   Proof.
     unfold Sampler.hmc_step, hmc_Ecur, hmc_Eprop, hmc_pq, hmc_pp, hmc_traj.
-    destruct (propagate _ _ _ _ _ _ _ _ _ _) as [[pq pp] tr1]. simpl.
+    destruct (propagate _ _ _ _ _ _ _ _ _ _ _) as [[pq pp] tr1]. simpl.
     destruct (accepts _ _); reflexivity.
   Qed.
 
@@ -70,7 +70,7 @@ Section SP.
     cur s' = hmc_pq c s e /\ cur_x s' = misfit (hmc_pq c s e) /\ acc s' = S (acc s).
   Proof.
     unfold Sampler.hmc_step, hmc_pq, hmc_traj.
-    destruct (propagate _ _ _ _ _ _ _ _ _ _) as [[pq pp] tr1]. simpl.
+    destruct (propagate _ _ _ _ _ _ _ _ _ _ _) as [[pq pp] tr1]. simpl.
     match goal with |- context [tune ?tu ?i ?a ?s] => destruct (tune_cur tu i a s) as (_ & _ & Ha) end.
     destruct (accepts _ _); simpl; [|discriminate]. intros _. rewrite Ha. auto.
   Qed.
@@ -80,7 +80,7 @@ Section SP.
     cur s' = cur s /\ cur_x s' = misfit (cur s) /\ acc s' = acc s.
   Proof.
     unfold Sampler.hmc_step.
-    destruct (propagate _ _ _ _ _ _ _ _ _ _) as [[pq pp] tr1]. simpl.
+    destruct (propagate _ _ _ _ _ _ _ _ _ _ _) as [[pq pp] tr1]. simpl.
     match goal with |- context [tune ?tu ?i ?a ?s] => destruct (tune_cur tu i a s) as (_ & _ & Ha) end.
     destruct (accepts _ _); simpl; [discriminate|]. intros _. rewrite Ha. auto.
   Qed.
@@ -198,7 +198,7 @@ Section SP.
     intros Hon. destruct sm as [c|c]; simpl in *.
     - unfold Sampler.rwmh_step, Sampler.tune. rewrite Hon. destruct (accepts _ _); simpl; eauto.
     - unfold Sampler.hmc_step, Sampler.tune. rewrite Hon.
-      destruct (propagate _ _ _ _ _ _ _ _ _ _) as [[pq pp] tr1].
+      destruct (propagate _ _ _ _ _ _ _ _ _ _ _) as [[pq pp] tr1].
       destruct (accepts _ _); simpl; eauto.
   Qed.
 
